@@ -33,19 +33,31 @@ def atom_strategy(allow_special):
         "fp": S.fl(-2, 2), "fpp": S.fl(0, 3), "disp": st.sampled_from(["pair", "pair", "none"])})
 
 
+def _far(case):
+    """one case in eight: a 40 times larger cell (120-480 A) with Miller indices up to 200 (same sin(theta)/lambda range)"""
+    far = case.pop("far")
+    far_hkl = case.pop("hkl_far")
+    if far is not None:
+        case["abc"] = [x * far for x in case["abc"]]
+        case["hkl"] = far_hkl
+    return case
+
+
 def case_strategy(unit, allow_special, box, nhkl=3):
     return st.fixed_dictionaries({
+        "far": st.sampled_from([None] * 7 + [40.0]),
+        "hkl_far": st.lists(S.hkls(200, allow_zero=True), min_size=nhkl, max_size=nhkl),
         "setting": st.just(unit),
         "abc": st.tuples(S.fl(3, 12), S.fl(3, 12), S.fl(3, 12)).map(list),
         "ang": st.tuples(S.fl(50, 115), S.fl(60, 120), S.fl(-1, 1)).map(list), "orth": st.integers(0, 4).map(lambda i: i == 0),
         "atoms": st.one_of(st.lists(atom_strategy(allow_special), min_size=1, max_size=4), st.lists(atom_strategy(allow_special), min_size=5, max_size=9)),
         "dup": st.sampled_from([None, None, None, 0, 1]),
-        "hkl": st.lists(S.hkls(box, allow_zero=True), min_size=nhkl, max_size=nhkl),
+        "hkl": st.lists(S.hkls(box, allow_zero=True, big=3 * box), min_size=nhkl, max_size=nhkl),
         "op": st.integers(0, 191), "ext_pick": S.fl(0, 1), "disper": st.sampled_from(["table", "table", "absent"]),
         "prev_cell": st.one_of(st.none(), st.none(), S.fl(0.7, 1.4), S.logfl(1e-8, 1e-3)),
         "pos_as": st.sampled_from(["array", "array", "list", "int-if-integral"]),
         "cell_as": st.sampled_from(["float-list", "float-list", "float-list", "float-array", "int-list", "int-array"]),
-        "upper": st.booleans(), "blank": st.booleans()})
+        "upper": st.booleans(), "blank": st.booleans()}).map(_far)
 
 
 def ff(el, s):
